@@ -24,10 +24,10 @@ EXIT_OK, EXIT_VIOLATION, EXIT_HARNESS = 0, 1, 3
 # --------------------------------------------------------------------------
 # obligations
 # --------------------------------------------------------------------------
-def ob(prop, harness, oid, max_paths=5000, wall=120, validate=1, expect=None, **params):
+def ob(prop, harness, oid, max_paths=5000, wall=120, validate=1, expect=None, sweep=0, **params):
     """An obligation is data: (property module, harness name, JSON-able params)."""
     return {'prop': prop, 'harness': harness, 'oid': '%s/%s' % (prop, oid), 'params': params,
-            'max_paths': max_paths, 'wall': wall, 'validate': validate, 'expect': expect}
+            'max_paths': max_paths, 'wall': wall, 'validate': validate, 'expect': expect, 'sweep': sweep}
 
 
 def make_twins(obs, picks):
@@ -216,8 +216,25 @@ def decide(o):
                         _compare_observed(pr.env.observed, cenv.observed, m)
                         res['validated'] += 1
 
+        def on_path_names(pr, _orig=on_path):
+            if 'names' not in state and pr.kind != 'abort':
+                state['names'] = {n: isinstance(sv, symx.Sym) for n, sv in pr.ctx.inputs.items()}
+            _orig(pr)
+
         with symx.wall_cap(o.get('wall', 120)):
-            summ = symx.explore(body, max_paths=o.get('max_paths', 5000), on_path=on_path)
+            summ = symx.explore(body, max_paths=o.get('max_paths', 5000), on_path=on_path_names)
+            if o.get('sweep') and not res['fail'] and state.get('names'):
+                # auxiliary guard, not the deciding step: plain-float runs on plateau data (few distinct small integers, so that values
+                # repeat and stay unchanged over consecutive samples).  Behaviour that hangs on the IDENTITY of float objects (`a is b`
+                # caches) or on exact repetition cannot be seen through proxies that build a new term for every result.
+                srng = random.Random(o['oid'])
+                for _ in range(o['sweep']):
+                    vals = {n: ([0, str(srng.choice((0, 0, 1, 2, 3, 5)))] if num else srng.random() < 0.5) for n, num in state['names'].items()}
+                    failed, ckind, detail, obs, use_fr = concrete_verdict(body, vals)
+                    if failed:
+                        res['fail'].append({'kind': ckind, 'sym_kind': 'plateau-sweep', 'detail': detail, 'values': vals, 'observed': obs, 'use_fractions': use_fr})
+                        break
+                res['sweep_runs'] = o['sweep']
         res.update(summ)
         if res['fail']:
             res['verdict'] = 'violated'
